@@ -378,7 +378,7 @@ func Shapes(k Kind) []Shape {
 			{Name: "nlv1-untagged", Class: "lang1", Quick: true, Build: func(*Gen) reflect.Value { return val(nlv("-", "Hello world")) }},
 			{Name: "nlv1-en", Class: "lang1-tagged", Quick: true, Build: func(*Gen) reflect.Value { return val(nlv("en", "Hello")) }},
 			{Name: "nlv2", Class: "lang2+", Quick: true, Build: func(*Gen) reflect.Value { return val(nlv("en", "Hello", "fr", "Bonjour")) }},
-			{Name: "nlv3", Class: "lang2+", Build: func(*Gen) reflect.Value { return val(nlv("en", "Hello", "fr", "Bonjour", "de", "Hallo")) }},
+			{Name: "nlv3", Class: "lang2+", Build: func(*Gen) reflect.Value { return val(nlv("en-US", "Hello", "fr", "Bonjour", "zh-Hant", "你好")) }},
 		}
 	case KTime:
 		return []Shape{
